@@ -161,7 +161,7 @@ theorem markEdge_spec {h : Heap} {R : Id → Prop} {fuel : Nat} (ih : ObjSpec h 
       obtain ⟨sp, mk, ph⟩ := ih (d - 1) e.tgt s hs hw hr
       exact ⟨sp, fun c => Or.inl (mk c), fun _ c => mk c, by omega, fun _ => ph⟩
   · rw [if_neg hdec]
-    obtain ⟨sp, mk, ph⟩ := ih d e.tgt s hs hw hr
+    obtain ⟨sp, mk, ph⟩ := ih (if e.lvl then d - 1 else d) e.tgt s hs hw hr
     exact ⟨sp, fun c => Or.inl (mk c), fun _ c => mk c, by omega, fun _ => ph⟩
 
 theorem fold_spec {h : Heap} {R : Id → Prop} {fuel : Nat} (ih : ObjSpec h R fuel) (d : Nat) (es : List Edge) :
